@@ -491,7 +491,9 @@ def gen_meta(r, cid, big=False):
     return {"kind": "meta", "id": cid, "n": n, "nbins": NB, "hillfreq": hillfreq, "upfreq": upfreq,
             "restartfreq": restartfreq, "lockstep": lock, "grids": r.random() < 0.7, "szd": szd,
             # no replicaID keyword: the name comes from the replica interface of the engine (its replica index)
-            "idfromcomm": r.random() < 0.25, "step0": S0, "events": events}
+            "idfromcomm": r.random() < 0.25, "step0": S0,
+            # a restarted walker continues with a configuration that legally differs from the one that wrote its state
+            "conf2": ({"hillfreq": r.choice([1, 2, 3]), "upfreq": r.choice([1, 2, 3, 5])} if r.random() < 0.5 else None), "events": events}
 
 
 def meta_primitives(case):
@@ -504,6 +506,9 @@ def meta_primitives(case):
     t = [None] * n
     first = [True] * n
     started = [False] * n
+    second = [False] * n        # the walker runs its second (or a later) job: with conf2 its frequencies are different ones
+    def freq(w, key):
+        return case["conf2"][key] if (second[w] and case.get("conf2")) else case[key]
     D = [[] for _ in range(n)]
     prims = []
     Dafter = []
@@ -520,10 +525,10 @@ def meta_primitives(case):
             rel0 = first[w]
             first[w] = False
             t[w] = nt
-            if ((not rel0) or case.get("szd")) and nt % case["hillfreq"] == 0:
+            if ((not rel0) or case.get("szd")) and nt % freq(w, "hillfreq") == 0:
                 p.append(("dep", w, nt, ev[2]))
                 D[w].append((nt, ev[2]))
-            if nt % case["upfreq"] == 0:
+            if nt % freq(w, "upfreq") == 0:
                 p.append(("flush", w))
                 p.append(("share", w))
             rf = case["restartfreq"][w]
@@ -536,6 +541,7 @@ def meta_primitives(case):
             p.append(("setup", w, t[w], bool(ev[2])))
             state_n[w] = len(D[w])
             first[w] = True
+            second[w] = True
         prims.append(p)
         Dafter.append([list(x) for x in D])
         case["_state_n_after"].append(list(state_n))
